@@ -70,7 +70,7 @@ func (v DenseIntVector) APPEND(w DenseIntVector) DenseIntVector {
   return append(v, w...)
 }
 func (v DenseIntVector) ToDenseIntMatrix(n, m int) *DenseIntMatrix {
-  if n*m != len(v) {
+  if n < 0 || m < 0 || n*m != len(v) {
     panic("Matrix dimension does not fit input vector!")
   }
   matrix := DenseIntMatrix{}
